@@ -35,6 +35,29 @@ def step (st : St) (line : String) : IO St := do
                      R0 := hexR ((kv rest "R0").getD ""), Rmax := hexR ((kv rest "Rmax").getD ""), alphaJump := hexR ((kv rest "alpha_jump").getD ""),
                      nrExp := i "nr_exp", ntExp := i "ntheta_exp", aniso := i "anisotropic_factor", div := (i "divideBy2").toNat, maxLevels := i "maxLevels" }
     return { st with cur := some r, curLine := (line.take 900).toString, stats := { st.stats with cases := st.stats.cases + 1 } }
+  | "LEV" :: rest =>
+    -- C18: `chooseNumberOfLevels` on a real grid of the given size against `GridGen.chooseLevels`, and the property's own clause on the
+    -- implementation: at least two levels, every level but the coarsest can be coarsened (odd nr so that both boundaries are kept,
+    -- ntheta divisible by 4 so that the coarse ntheta is even), the coarsest keeps 5 radial nodes / 4 angular divisions
+    let nr := toNat! ((kv rest "nr").getD ""); let nt := toNat! ((kv rest "nt").getD ""); let ml := toInt! ((kv rest "max").getD "")
+    let out := (kv rest "out").getD ""
+    let model := match GridGen.chooseLevels nr nt ml with | .ok l => toString l | _ => "throw"
+    let mut st := st
+    let stats ← check st.stats (out == model) fun _ => s!"chooseNumberOfLevels nr={nr} nt={nt} maxLevels={ml}: implementation {out}, model {model}"
+    st := { st with stats := { stats with cases := stats.cases + 1 } }
+    if out != "throw" then
+      let L := toNat! out
+      let mut okAll : Bool := decide (L ≥ 2)
+      let mut cr := nr; let mut ct := nt
+      for _ in [0:L-1] do
+        if cr % 2 == 0 ∨ ct % 4 != 0 then okAll := false
+        cr := (cr + 1) / 2; ct := ct / 2
+      if cr < 5 ∨ ct < 4 then okAll := false
+      if !okAll then
+        IO.println s!"ORACLE C18 chooseNumberOfLevels returns {L} levels for nr={nr} ntheta={nt} maxLevels={ml}, but the hierarchy is not admissible: some level that has to be coarsened has an even number of radial nodes / an ntheta not divisible by 4, or the coarsest grid is too small (coarsest would be {cr} x {ct})"
+        st := { st with oracleFails := st.oracleFails + 1 }
+    if nr % 37 == 0 ∧ nt == 16 ∧ ml == -1 then IO.println s!"SIG levels nr={nr} out={out}"
+    return st
   | kind :: rest =>
     if kind == "RUN" ∨ kind == "REJECTED" ∨ kind == "ABORT" then
       match st.cur with
